@@ -386,6 +386,11 @@ func (f *Frame) execInstr(in ssa.Instruction, reach string, st *State) {
 		f.rets = append(f.rets, retPoint{reach, vs, st.clone(), x})
 	case *ssa.Select:
 		// nondeterministic choice; received values are arbitrary.
+		for _, sst := range x.States {
+			if sst.Dir == types.SendOnly && sst.Send != nil {
+				f.sendAsserts(x, sst.Chan, sst.Send, reach, st)
+			}
+		}
 		var tup []string
 		tt := x.Type().(*types.Tuple)
 		for i := 0; i < tt.Len(); i++ {
@@ -402,6 +407,7 @@ func (f *Frame) execInstr(in ssa.Instruction, reach string, st *State) {
 		}
 	case *ssa.Send:
 		// no effect on modelled state
+		f.sendAsserts(x, x.Chan, x.X, reach, st)
 	case *ssa.Slice:
 		f.sliceOp(x, reach, st)
 	case *ssa.SliceToArrayPointer:
@@ -469,6 +475,10 @@ func (f *Frame) checkAllocLimit(x *ssa.MakeSlice, ln string, reach string) {
 	for _, a := range fc.Asserts {
 		if strings.HasPrefix(a.Anchor, "make") {
 			env := f.specEnv(f.entry, f.entry, nil)
+			if f == f.top {
+				// parameters (as on entry) may be mentioned
+				env = f.funcEnv(f.entry, f.entry)
+			}
 			env.vars["size"] = sval{t: ln, sort: "Int"}
 			g, err := env.evalGoal(a.E)
 			if err != nil {
